@@ -236,7 +236,7 @@ def run_case(env, rec, case):
 
 
 def plan(tier, seed):
-    n = 6000 if tier == "quick" else 600000
+    n = 6000 if tier == "quick" else 300000
     nshard = 15 if tier == "quick" else 32
     return [{"name": f"gen_{i:02d}", "n": n // nshard, "idx": i} for i in range(nshard)]
 
